@@ -74,6 +74,45 @@ def probe_locations(code, rng, k=12):
     return locs
 
 
+def gf2_rank(rows):
+    """rank over GF(2) of rows given as Python ints"""
+    piv = {}
+    for v in rows:
+        while v:
+            h = v.bit_length() - 1
+            if h in piv:
+                v ^= piv[h]
+            else:
+                piv[h] = v
+                break
+    return len(piv)
+
+
+def rank_post(klass):
+    """canonicaliser of the `rankfamily` stream: the model prints the family of stabilizer locations
+    of the theorem `rank_family`; it is evaluated on the IMPLEMENTATION's parity-check matrix
+    (membership, distinctness, count n - k, GF(2) rank of the selected rows)"""
+    from harness import codes as K
+
+    def post(op, out):
+        toks = op.split()
+        size = tuple(int(t) for t in toks[2:5])
+        try:
+            code = klass(*size)
+            locs = [] if out == '_' else [tuple(int(v) for v in c.split('.')) for c in out.split(';')]
+            if len(set(locs)) != len(locs):
+                return 'repeated location'
+            bad = [l for l in locs if l not in code.stabilizer_index]
+            if bad:
+                return f'not a stabilizer location: {bad[0]}'
+            H = K.dense(code.stabilizer_matrix) if code.n_stabilizers else []
+            rows = [K.pack(H[code.stabilizer_index[l]]) for l in locs]
+            return f'members {len(locs)} rank {gf2_rank(rows)}'
+        except Exception as e:  # noqa
+            return f'EXC:{type(e).__name__}'
+    return post
+
+
 def streams_for(ctx, cls, supported, salt):
     import panqec.codes as C
     klass = getattr(C, cls)
@@ -83,6 +122,7 @@ def streams_for(ctx, cls, supported, salt):
     s_log = Stream(f'lat-{cls}-logicals')
     s_attr = Stream(f'lat-{cls}-axis-type')
     s_def = Stream(f'lat-{cls}-get_deformation')
+    s_rank = Stream(f'lat-{cls}-rank-family', post=rank_post(klass))
     for size, tag in sizes_for(ctx, cls, supported, salt):
         pre = f'lat {cls} ' + ' '.join(map(str, size))
         label = f'{cls}{tuple(size)}'
@@ -101,6 +141,11 @@ def streams_for(ctx, cls, supported, salt):
                   {'code': label, 'what': 'get_logicals_x'}, tag=tag)
         s_log.add(f'{pre} logz', guarded(lambda: ops_str(code.get_logicals_z())),
                   {'code': label, 'what': 'get_logicals_z'}, tag=tag)
+        if supported(size):
+            nk = guarded(lambda: code.n - code.k)
+            s_rank.add(f'{pre} rankfamily', f'members {nk} rank {nk}',
+                       {'code': label, 'what': 'independent family of n-k generators (theorem rank_family) '
+                        'evaluated on stabilizer_matrix'}, tag=tag)
         probes = probe_locations(code, rng)
         for loc in ss:
             s_stab.add(f'{pre} stab {cstr(loc)}', guarded(lambda: op_str(code.get_stabilizer(loc)), ERR),
@@ -136,4 +181,4 @@ def streams_for(ctx, cls, supported, salt):
                     s_def.add(f'{pre} deform {name} {ax} {cstr(loc)}', guarded(call, ERR),
                               {'code': label, 'location': list(loc), 'name': name, 'axis': ax,
                                'what': 'get_deformation'}, tag=tag)
-    return [s.run() for s in (s_coord, s_stab, s_log, s_attr, s_def)]
+    return [s.run() for s in (s_coord, s_stab, s_log, s_attr, s_def, s_rank)]
